@@ -4,7 +4,6 @@ import (
 	"bufio"
 	"crypto/sha256"
 	"encoding/binary"
-	"fmt"
 	"io"
 
 	"github.com/bluenviron/gomavlib/v3/pkg/message"
@@ -169,7 +168,7 @@ func (f *V2Frame) unmarshal(br *bufio.Reader) error {
 
 	// discard frame if incompatibility flag is not understood, as in recommendations
 	if f.IncompatibilityFlag != 0 && f.IncompatibilityFlag != V2FlagSigned {
-		return fmt.Errorf("unknown incompatibility flag: %d", f.IncompatibilityFlag)
+		return newError("unknown incompatibility flag: %d", f.IncompatibilityFlag)
 	}
 
 	// message
